@@ -1,3 +1,250 @@
-import KoordVerif.Model.C17
+import KoordVerif.Proofs.C17Flow
+/-
+C17 — migration jobs evict only after capacity is secured; finished jobs stay finished.
+
+The model (Model/C17.lean) is `reconcile : World → faultMask → World × Out`, one `Reconciler.Reconcile`
+call with every API write taking one bit of the fault mask; a history is a list of `Op`s (environment events
+and reconciles).  `Out.evicts` / `run … .2` is the log of the recording evictor: one `Snap` per `Evict` call,
+stamped with the environment (reservation, pod, preemption script) at that instant.
+
+All theorems quantify over EVERY world (job spec/status, reservation, pod, clock), every fault mask and,
+where a history is mentioned, every list of operations.
+-/
 namespace KoordVerif.C17
+
+/-- the state in which an eviction is allowed by the property (clause 1), read off the evictor's snapshot:
+    the reservation exists, is not pending, not expired, is scheduled (node set + Scheduled=True) or the
+    preemption for it has completed, is not consumed (phase Succeeded = bound to a pod), and the pod exists. -/
+def Secured (s : Snap) : Prop :=
+  ∃ r p, s.env.resv = some r ∧ s.env.pod = some p ∧
+    resvPending r = false ∧ resvExpired r = false ∧
+    (resvScheduled r = true ∨ (r.needPreempt = true ∧ s.env.preempt = 2)) ∧
+    resvSucceeded r = false
+
+/-- what `doMigrate_goal` says about one reconcile, unpacked -/
+theorem reconcile_evicts (w : World) (f : Nat) :
+    (reconcile w f).2.evicts = [] ∨
+    ∃ m1 : M, (reconcile w f).2.evicts = [⟨m1.env, w.job, m1.mem⟩] ∧ m1.faults = f ∧
+      (w.job.spec.direct = false → GatesM m1) ∧ DD m1 w.job.spec.direct ∧
+      (∃ p, m1.env.pod = some p) ∧
+      (m1.mem.spec.resvRef = true → ∃ r, m1.env.resv = some r ∧ resvSucceeded r = false) ∧
+      ¬ WFp w.job.status.conds ∧
+      (f = 0 → WFp (reconcile w f).1.job.status.conds) := by
+  unfold reconcile
+  split
+  · exact Or.inl rfl
+  · have g := doMigrate_goal (M.init w f) w.job.spec.resvRef ⟨rfl, rfl⟩
+    rcases g with hk | ⟨m1, hk1, hq, hev⟩
+    · exact Or.inl hk.evicts
+    · refine Or.inr ⟨m1, ?_, hk1.faults, ?_, hk1.dd _ ⟨rfl, rfl⟩, hev.pod, hev.bound, ?_, ?_⟩
+      · have h1 : m1.evicts = [] := hk1.evicts
+        have h2 : m1.job0 = w.job := hk1.job0
+        simp only [hev.evicts, h1, h2, List.nil_append]
+      · intro hd
+        exact hq ((hk1.dd _ ⟨rfl, rfl⟩).1.trans hd)
+      · intro hw
+        exact hev.nocond (hk1.j ⟨hw, hw⟩).1
+      · intro h0
+        exact hev.recorded (by rw [hk1.faults]; exact h0)
+
+/-- **evict_only_when_secured** (clause 1, and clause 5 "a failed write never skips a gate": the fault mask is
+    universally quantified).  In reservation-first mode, whatever the job status, the environment and the
+    failing writes are, every `Evict` call of a reconcile is issued while the reservation exists, is not
+    pending, not expired, scheduled-or-preempted-for, not consumed by a pod, and the pod exists.
+    (The node clause is `evict_node_checked` / `evict_node_differs_faultfree` below.) -/
+theorem evict_only_when_secured (w : World) (f : Nat) (hmode : w.job.spec.direct = false) :
+    ∀ s ∈ (reconcile w f).2.evicts, s.job0 = w.job ∧ Secured s := by
+  intro s hs
+  rcases reconcile_evicts w f with h | ⟨m1, h, _, hg, _, ⟨p, hp⟩, hb, _, _⟩
+  · rw [h] at hs; cases hs
+  · rw [h] at hs
+    simp only [List.mem_singleton] at hs
+    subst hs
+    obtain ⟨hrr, r, hr, h1, h2, h3, _⟩ := hg hmode
+    obtain ⟨r', hr', hsucc⟩ := hb hrr.1
+    rw [hr] at hr'; cases hr'
+    exact ⟨rfl, r, p, hr, hp, h1, h2, h3, hsucc⟩
+
+/-- the same over any history: every evictor call made on behalf of a reservation-first job is secured -/
+theorem evict_only_when_secured_history (ops : List Op) :
+    ∀ w : World, ∀ s ∈ (run w ops).2, s.job0.spec.direct = false → Secured s := by
+  induction ops with
+  | nil => intro w s hs; cases hs
+  | cons op rest ih =>
+    intro w s hs hd
+    simp only [run, List.mem_append] at hs
+    rcases hs with hs | hs
+    · cases op with
+      | recon f =>
+        simp only [step] at hs
+        by_cases hm : w.job.spec.direct = false
+        · exact (evict_only_when_secured w f hm s hs).2
+        · rcases reconcile_evicts w f with h | ⟨m1, h, _⟩
+          · rw [h] at hs; cases hs
+          · rw [h] at hs
+            simp only [List.mem_singleton] at hs
+            subst hs
+            exact absurd hd hm
+      | _ => simp [step] at hs
+    · exact ih _ s hs hd
+
+/-- reservation-first evictions never concern a job in pending-pod mode, and a reconcile calls the evictor at
+    most once -/
+theorem evict_once_per_reconcile (w : World) (f : Nat) : (reconcile w f).2.evicts.length ≤ 1 := by
+  rcases reconcile_evicts w f with h | ⟨m1, h, _⟩ <;> simp [h]
+
+/-! ### clause 2 — terminal phases are absorbing -/
+
+/-- **terminal_absorbing.**  A job whose phase is anything but ""/Pending/Running (Succeeded, Failed, Aborted, …)
+    is left exactly as it is by a reconcile, under any faults: same persisted job, same environment (no
+    reservation created or deleted), no API write, no evictor call. -/
+theorem terminal_absorbing (w : World) (f : Nat) (h : livePhase w.job.status.phase = false) :
+    reconcile w f = (w, ⟨[], []⟩) := by
+  unfold reconcile
+  split
+  · rfl
+  · unfold doMigrate
+    split
+    · rfl
+    · simp [h, M.init]
+
+/-- … and no operation of a history (environment events included) ever changes its status again or triggers
+    an eviction. -/
+theorem terminal_forever (ops : List Op) :
+    ∀ w : World, livePhase w.job.status.phase = false →
+      (run w ops).1.job.status = w.job.status ∧ (run w ops).2 = [] := by
+  induction ops with
+  | nil => intro w _; exact ⟨rfl, rfl⟩
+  | cons op rest ih =>
+    intro w h
+    have hstep : (step w op).1.job.status = w.job.status ∧ (step w op).2 = ⟨[], []⟩ := by
+      cases op with
+      | recon f => simp only [step]; rw [terminal_absorbing w f h]; exact ⟨rfl, rfl⟩
+      | _ => exact ⟨rfl, rfl⟩
+    have h' : livePhase (step w op).1.job.status.phase = false := by rw [hstep.1]; exact h
+    obtain ⟨i1, i2⟩ := ih (step w op).1 h'
+    simp only [run]
+    exact ⟨i1.trans hstep.1, by rw [hstep.2, i2]; rfl⟩
+
+/-! ### clause 3 — an expired job deletes its reservation -/
+
+theorem live_ne_failed {p : Nat} (h : livePhase p = true) : p ≠ Ph.failed := by
+  intro hp; subst hp; revert h; decide
+
+/-- **expired_deletes_reservation.**  A live, un-paused job past its TTL: the reconcile issues no eviction under
+    any faults; if it ends Failed then the referenced reservation is gone; and without faults it does end
+    Failed/Timeout with the referenced reservation gone. -/
+theorem expired_deletes_reservation (w : World) (f : Nat)
+    (hmine : ¬ (w.job.spec.createdBy ≠ 0 ∧ w.job.spec.createdBy ≠ w.env.ctrl))
+    (hp : w.job.spec.paused = false) (hlive : livePhase w.job.status.phase = true)
+    (httl : w.job.spec.ttl ≠ 0) (hexp : w.job.spec.ttl ≤ w.env.now) :
+    (reconcile w f).2.evicts = [] ∧
+    ((reconcile w f).1.job.status.phase = Ph.failed → w.job.spec.resvRef = true → (reconcile w f).1.env.resv = none) ∧
+    (f = 0 → (reconcile w f).1.job.status.phase = Ph.failed ∧ (reconcile w f).1.job.status.reason = Rs.timeout ∧
+      (w.job.spec.resvRef = true → (reconcile w f).1.env.resv = none)) := by
+  have hnl : ¬ w.env.now < w.job.spec.ttl := Nat.not_lt.mpr hexp
+  have hne := live_ne_failed hlive
+  unfold reconcile
+  rw [if_neg hmine]
+  simp only [doMigrate, M.init, hp, hlive, abortIfTimeout, httl, hnl, Res.bind, Res.m, deleteReservation,
+    Bool.false_eq_true, if_false, Bool.not_true]
+  by_cases hr : w.job.spec.resvRef = true
+  · simp only [hr, Bool.not_true, Bool.false_eq_true, if_false]
+    cases hres : w.env.resv with
+    | none =>
+      simp only [abortWith, M.setStatus, M.statusUpdate, M.wok, M.logw]
+      by_cases hb : f.testBit 0 = true <;> simp [hb, hne, hres]
+      · intro h0; subst h0; simp at hb
+    | some r =>
+      simp only [M.wok, M.logw, abortWith, M.setStatus, M.statusUpdate]
+      by_cases hb : f.testBit 0 = true
+      · simp [hb, hne]
+        intro h0; subst h0; simp at hb
+      · by_cases hb1 : f.testBit 1 = true <;> simp [hb, hb1, hne]
+        · intro h0; subst h0; simp at hb1
+  · have hr' : w.job.spec.resvRef = false := by simpa using hr
+    simp only [hr', Bool.not_false, if_true, abortWith, M.setStatus, M.statusUpdate, M.wok, M.logw]
+    by_cases hb : f.testBit 0 = true <;> simp [hb, hne]
+    · intro h0; subst h0; simp at hb
+
+/-! ### clause 4 — at most one eviction without API errors -/
+
+def faultFree (ops : List Op) : Prop := ∀ f, Op.recon f ∈ ops → f = 0
+
+/-- once an eviction is on record (condition Eviction = True, or False with reason Evicting) no reconcile calls
+    the evictor again, under any faults, and the record stays -/
+theorem recorded_blocks_evict (w : World) (f : Nat) (h : WFp w.job.status.conds) :
+    (reconcile w f).2.evicts = [] ∧ WFp (reconcile w f).1.job.status.conds := by
+  rcases reconcile_evicts w f with he | ⟨m1, _, _, _, _, _, _, hn, _⟩
+  · refine ⟨he, ?_⟩
+    unfold reconcile
+    split
+    · exact h
+    · have g := doMigrate_goal (M.init w f) w.job.spec.resvRef ⟨rfl, rfl⟩
+      rcases g with hk | ⟨m1, hk1, _, hev⟩
+      · exact (hk.j ⟨h, h⟩).2
+      · exact absurd (hk1.j ⟨h, h⟩).1 hev.nocond
+  · exact absurd h hn
+
+theorem env_step (w : World) (op : Op) (h : ∀ f, op ≠ .recon f) :
+    (step w op).1.job.status = w.job.status ∧ (step w op).2.evicts = [] := by
+  cases op with
+  | recon f => exact absurd rfl (h f)
+  | _ => exact ⟨rfl, rfl⟩
+
+/-- **evict_at_most_once.**  From ANY world, along any history of environment events and fault-free reconciles,
+    the evictor is called at most once in total. -/
+theorem evict_at_most_once (ops : List Op) :
+    ∀ w : World, faultFree ops →
+      (run w ops).2.length ≤ 1 ∧ (WFp w.job.status.conds → (run w ops).2 = []) := by
+  induction ops with
+  | nil => intro w _; exact ⟨Nat.zero_le _, fun _ => rfl⟩
+  | cons op rest ih =>
+    intro w hff
+    have hrest : faultFree rest := fun f hf => hff f (List.mem_cons_of_mem _ hf)
+    obtain ⟨i1, i2⟩ := ih (step w op).1 hrest
+    simp only [run]
+    by_cases hop : ∃ f, op = .recon f
+    · obtain ⟨f, rfl⟩ := hop
+      have hf0 : f = 0 := hff f List.mem_cons_self
+      subst hf0
+      simp only [step] at i1 i2 ⊢
+      rcases reconcile_evicts w 0 with he | ⟨m1, he, _, _, _, _, _, hn, hrec⟩
+      · rw [he]
+        refine ⟨by simpa using i1, fun hw => ?_⟩
+        simp only [List.nil_append]
+        exact i2 (recorded_blocks_evict w 0 hw).2
+      · rw [he]
+        have hz := i2 (hrec rfl)
+        exact ⟨by simp [hz], fun hw => absurd hw hn⟩
+    · have hne : ∀ f, op ≠ .recon f := fun f h => hop ⟨f, h⟩
+      obtain ⟨e1, e2⟩ := env_step w op hne
+      rw [e2]
+      refine ⟨by simpa using i1, fun hw => ?_⟩
+      simp only [List.nil_append]
+      exact i2 (by rw [e1]; exact hw)
+
+/-! ### non-vacuity -/
+
+def exPod : Pod := ⟨1, 3, 0, 0, false⟩
+def exResv : Resv := ⟨RPh.available, 1, 1, 0, false, 0, false, true, false⟩
+def exJob : Job :=
+  { spec := ⟨false, false, 300, true, 1, true, false, 0⟩,
+    status := ⟨Ph.running, CT.resvCreated, 0, 0, false, [⟨CT.resvCreated, true, 0, 0⟩]⟩ }
+def exWorld : World := { job := exJob, env := ⟨10, some exPod, some exResv, 0, false, 0, 1⟩ }
+
+/-- the hypotheses are satisfiable and the conclusion is not vacuous: this reconcile does evict -/
+example : (reconcile exWorld 0).2.evicts.length = 1 := by decide
+example : (reconcile exWorld 0).1.job.status.conds =
+    [⟨CT.resvCreated, true, 0, 0⟩, ⟨CT.resvScheduled, true, 0, 0⟩, ⟨CT.eviction, false, Rs.evicting, 0⟩] := by decide
+/-- a pending reservation: same job, no eviction -/
+example : (reconcile { exWorld with env := { exWorld.env with resv := some { exResv with phase := RPh.pending } } } 0).2.evicts = [] := by decide
+/-- TTL passed: the reservation is deleted and the job fails with Timeout -/
+example : (reconcile { exWorld with env := { exWorld.env with now := 300 } } 0).1.env.resv = none ∧
+    (reconcile { exWorld with env := { exWorld.env with now := 300 } } 0).1.job.status.phase = Ph.failed := by decide
+/-- a two-reconcile fault-free history evicts exactly once -/
+example : (run exWorld [.recon 0, .recon 0, .pod none, .recon 0]).2.length = 1 := by decide
+/-- with the Evict call failing (bit 1: after the ReservationScheduled status write) the retry evicts again -/
+example : (run exWorld [.recon 2, .recon 0]).2.length = 2 := by decide
+
 end KoordVerif.C17
